@@ -52,6 +52,7 @@ type Run struct {
 
 	sched    *Sched
 	mapOrder bool
+	Param    string // engine-specific override of drawn choices (enumeration); part of the replay file
 	SimProcs int // simulated GOMAXPROCS seen by instrumented code (0 = real)
 	NonCanon map[string]int
 }
